@@ -502,6 +502,58 @@ carquet_status_t carquet_offset_index_serialize(
  */
 
 /**
+ * Compare a query value with a stored page bound in the column's type order.
+ * Fixed-width numeric types are little-endian PLAIN values and must not be
+ * compared bytewise.
+ */
+static int compare_page_bound(carquet_physical_type_t type,
+                              const void* value, int32_t value_len,
+                              const uint8_t* bound, int32_t bound_len) {
+    switch (type) {
+        case CARQUET_PHYSICAL_INT32:
+            if (bound_len == 4) {
+                int32_t a, b;
+                memcpy(&a, value, sizeof(a));
+                memcpy(&b, bound, sizeof(b));
+                return (a > b) - (a < b);
+            }
+            break;
+        case CARQUET_PHYSICAL_INT64:
+            if (bound_len == 8) {
+                int64_t a, b;
+                memcpy(&a, value, sizeof(a));
+                memcpy(&b, bound, sizeof(b));
+                return (a > b) - (a < b);
+            }
+            break;
+        case CARQUET_PHYSICAL_FLOAT:
+            if (bound_len == 4) {
+                float a, b;
+                memcpy(&a, value, sizeof(a));
+                memcpy(&b, bound, sizeof(b));
+                if (a != a || b != b) return 0;  /* NaN: undecidable */
+                return (a > b) - (a < b);
+            }
+            break;
+        case CARQUET_PHYSICAL_DOUBLE:
+            if (bound_len == 8) {
+                double a, b;
+                memcpy(&a, value, sizeof(a));
+                memcpy(&b, bound, sizeof(b));
+                if (a != a || b != b) return 0;
+                return (a > b) - (a < b);
+            }
+            break;
+        default:
+            break;
+    }
+    int32_t n = value_len < bound_len ? value_len : bound_len;
+    int cmp = memcmp(value, bound, (size_t)n);
+    if (cmp != 0) return cmp;
+    return (value_len > bound_len) - (value_len < bound_len);
+}
+
+/**
  * Check if a page might contain values in the given range.
  *
  * @param builder Column index builder
@@ -534,10 +586,10 @@ carquet_status_t carquet_column_index_page_might_match(
 
     /* If query max < page min, no match */
     if (max_value && builder->min_values[page_idx]) {
-        int cmp = memcmp(max_value, builder->min_values[page_idx],
-                         value_len < builder->min_value_lens[page_idx] ?
-                         value_len : builder->min_value_lens[page_idx]);
-        if (cmp < 0 || (cmp == 0 && value_len < builder->min_value_lens[page_idx])) {
+        int cmp = compare_page_bound(builder->type, max_value, value_len,
+                                     builder->min_values[page_idx],
+                                     builder->min_value_lens[page_idx]);
+        if (cmp < 0) {
             *might_match = false;
             return CARQUET_OK;
         }
@@ -545,10 +597,10 @@ carquet_status_t carquet_column_index_page_might_match(
 
     /* If query min > page max, no match */
     if (min_value && builder->max_values[page_idx]) {
-        int cmp = memcmp(min_value, builder->max_values[page_idx],
-                         value_len < builder->max_value_lens[page_idx] ?
-                         value_len : builder->max_value_lens[page_idx]);
-        if (cmp > 0 || (cmp == 0 && value_len > builder->max_value_lens[page_idx])) {
+        int cmp = compare_page_bound(builder->type, min_value, value_len,
+                                     builder->max_values[page_idx],
+                                     builder->max_value_lens[page_idx]);
+        if (cmp > 0) {
             *might_match = false;
             return CARQUET_OK;
         }
